@@ -1,7 +1,8 @@
 /-
 Model.Week — civil week / month / season / half-year / year units
 (`SolarWeek`, `SolarMonth`, `SolarSeason`, `SolarHalfYear`, `SolarYear`), after the `fix:` commits
-(GetWeeksOfMonth offset wrap, SolarWeek.Next result variable, GetDaysInMonth assertion).
+(GetWeeksOfMonth offset wrap, SolarWeek.Next result variable, GetDaysInMonth assertion,
+October 1582 handling in GetIndex and in the last-day step of Next).
 -/
 import Model.Civil
 namespace Model
@@ -21,7 +22,8 @@ def weeksOfMonth (y m start : Int) : Int :=
 
 /-- `SolarWeek.GetIndex` : `ceil((day + offset) / 7)` -/
 def SolarWeek.index (w : SolarWeek) : Int :=
-  (w.day + wrap7 (week w.year w.month 1 - w.start) + 6) / 7
+  let day := if w.year = 1582 ∧ w.month = 10 ∧ w.day > 4 then w.day - 10 else w.day   -- after the `fix:` commit
+  (day + wrap7 (week w.year w.month 1 - w.start) + 6) / 7
 
 /-- `SolarWeek.GetIndexInYear` -/
 def SolarWeek.indexInYear (w : SolarWeek) : Option Int :=
@@ -87,7 +89,7 @@ def nextSepLoop (start : Int) (plus : Bool) : Nat → Solar → SolarWeek → In
                 let week2 := weekOf ld start
                 nextSepLoop start plus k c1 week2 week2.month
           else
-            match newSolarYmd week.year week.month (daysOfMonth week.year week.month) with
+            match (newSolarYmd week.year week.month 1).bind (fun f => f.nextDay (daysOfMonth week.year week.month - 1)) with
             | none => none
             | some c2 => nextSepLoop start plus k c2 (weekOf c2 start) week.month
       else nextSepLoop start plus k c1 week month
